@@ -265,6 +265,9 @@ func (fr *Frame) callMods(c *ast.CallExpr, ms *modSet, markLhs func(ast.Expr)) {
 		if _, ok := ast.Unparen(c.Fun).(*ast.FuncLit); ok {
 			return // the literal's body is inspected by the enclosing walk
 		}
+		if nt, ok := fr.typeOf(c.Fun).(*types.Named); ok && nt.Obj().Pkg() != nil && nt.Obj().Pkg().Path() == "context" && nt.Obj().Name() == "CancelFunc" {
+			return
+		}
 		ms.heapAll = true
 		return
 	}
@@ -449,6 +452,10 @@ func (fr *Frame) iterEnsures(back, head *State, ls *LoopSpec, key, i string, n a
 	if ls == nil {
 		return
 	}
+	if len(ls.IterEnsures) > 0 {
+		cov := fr.x.u.oblige("vacuity:loop["+key+"]:iteration-completes", "vacuity", "some iteration of the loop reaches its end", fr.pos(n.Pos()), back.pc, "true")
+		cov.ExpectSat = true
+	}
 	for k, c := range ls.IterEnsures {
 		lab := c.Label
 		if lab == "" {
@@ -513,6 +520,7 @@ func (fr *Frame) forStmt(st *State, n *ast.ForStmt, label string) flow {
 	fr.loops[len(fr.loops)-1].i = ih
 	fr.loopInvariants(head, ls, key, ih, "assume", n)
 	headSnap := head.clone()
+	fr.loops[len(fr.loops)-1].head = headSnap
 	var variant0 string
 	if ls != nil && ls.Decreases != nil {
 		env := fr.loopEnv(head, ih)
@@ -698,6 +706,7 @@ func (fr *Frame) rangeStmt(st *State, n *ast.RangeStmt, label string) flow {
 		}
 	}
 	bodySt0 := bodySt.clone()
+	fr.loops[len(fr.loops)-1].head = bodySt0
 	f := fr.block(bodySt, n.Body.List)
 	out.rets = append(out.rets, f.rets...)
 	ends := []*State{f.next}
@@ -811,6 +820,15 @@ func (fr *Frame) runAt(st *State, key string, s ast.Node) {
 			gk := "ghost.mark." + mk.Name
 			fr.x.u.regHeap(gk, "(Array Int Bool)")
 			fr.x.heapStore(st, gk, ref.T, "true")
+		}
+		if len(as.Asserts) > 0 && !fr.x.coverDone[as] {
+			// reachability cover: the assertions below must not hold vacuously
+			if fr.x.coverDone == nil {
+				fr.x.coverDone = map[*AtSpec]bool{}
+			}
+			fr.x.coverDone[as] = true
+			cov := fr.x.u.oblige("vacuity:at["+key+"]:reachable", "vacuity", "the statement the at-clause is keyed by is reachable", fr.pos(s.Pos()), st.pc, "true")
+			cov.ExpectSat = true
 		}
 		for _, a := range as.Asserts {
 			env := fr.specEnv(st)
